@@ -36,6 +36,8 @@ pub const SPEC: PropSpec = PropSpec {
         ("latch.cleared", 500, 20_000),
         ("latch.high_but_not_yet_4s", 1_000, 40_000),
         ("controller.gc_events", 500, 20_000),
+        ("controller.all_links_vanished", 200, 8_000),
+        ("controller.returned_as_fresh_connection", 200, 8_000),
         ("controller.ticks", 200_000, 8_000_000),
         ("counter.reset_observed", 500, 20_000),
     ],
@@ -371,12 +373,32 @@ pub fn run_controller(rng: &mut Rng, rep: &mut Report) {
             let i = rng.usize_below(conns.len());
             parked.push((k, conns.remove(i)));
         }
-        if rng.chance(1, 100) && parked.first().is_some_and(|p| p.0 < k) {
+        if rng.chance(1, 400) && !conns.is_empty() {
+            // every uplink vanishes at the same tick (reload replacing the whole list, all links torn down):
+            // the controller then ticks over an EMPTY list for a while
+            for c in conns.drain(..) {
+                parked.push((k, c));
+            }
+            rep.count("controller.all_links_vanished");
+        }
+        if conns.is_empty() {
+            rep.count("controller.empty_ticks");
+        }
+        if rng.chance(1, if conns.is_empty() { 6 } else { 100 }) && parked.first().is_some_and(|p| p.0 < k) {
             // it was absent from at least one tick_all call, so the controller garbage-collected it
-            let (_, c) = parked.remove(0);
+            let (_, old) = parked.remove(0);
+            // half of the time the same id comes back as a brand-new connection object (re-added address,
+            // reconnect): no RTT sample yet, so its target must sit at the floor again
+            let c = if rng.chance(1, 2) {
+                rep.count("controller.returned_as_fresh_connection");
+                mk_conn(old.conn_id, now)
+            } else {
+                old
+            };
             // the controller forgot it: the monitor starts afresh as well
             mons.remove(&c.conn_id);
             rtt_fed.remove(&c.conn_id);
+            gens.remove(&c.conn_id);
             rep.count("controller.gc_events");
             conns.push(c);
         }
